@@ -4,6 +4,7 @@
 *******************************************************************************/
 #pragma once
 #include <forward_list>
+#include "bitserializer/serialization_detail/generic_container.h"
 
 namespace BitSerializer
 {
@@ -17,7 +18,7 @@ namespace BitSerializer
 		{
 			if (const auto estimatedSize = arrayScope.GetEstimatedSize())
 			{
-				cont.resize(estimatedSize);
+				cont.resize(Detail::LimitPreallocatedSize<TValue>(estimatedSize));
 			}
 			else if (cont.empty())
 			{
